@@ -179,6 +179,13 @@ pub fn install_panic_hook() {
     }));
 }
 
+/// in child processes: a panic is printed with a marker and ends the process with code 101
+pub fn install_panic_hook_child() {
+    std::panic::set_hook(Box::new(|info| {
+        eprintln!("CHILD-PANIC {info}");
+    }));
+}
+
 pub fn take_panics() -> Vec<String> {
     match PANICS.lock() {
         Ok(mut g) => std::mem::take(&mut *g),
